@@ -25,13 +25,13 @@ reg('C09', 'model_checking',
 reg('C12', 'model_checking',
     'Complete enumeration of the S2K configuration alphabet (3 specifiers x 7 hashes x key sizes x all 256 coded counts for the sweep hashes / '
     'edge counts for the rest x passphrase lengths 0..70, count-boundary lengths, 1000, 5000, UTF-8, raw bytes x salts) on the real derive_key, built '
-    'through setters and through the wire form, against an independent streaming implementation of RFC 4880 3.7.1.',
+    'through setters and through the wire form, against an independent streaming implementation of RFC 4880 3.7.1; plus every ordered pair of a 72-configuration alphabet derived one after the other in one process (fresh objects, one object re-configured, a copy).',
     'Trusted: hashlib digests; refpgp.s2k (40 lines, RFC wording). Quick sweeps all 256 counts for SHA-1/AES-256 and SHA-256/AES-128 only; thorough sweeps all hashes.',
     'exhaustive input-space enumeration on the real code vs. reference S2K', 'DESIGN.md 2/C12')
 
 reg('C17', 'model_checking',
     'The whole issue lattice (2^11 values x every added bit), every verification-result object with 1-3 entries from a 16-value slice, and the '
-    'product key strength x hash x expired x revoked x subject kind x correct/incorrect x 1-3 signatures, all executed on the real code; '
+    'product key strength x hash x expired x revoked x subject kind x correct/incorrect x 1-3 signatures, and every sequence (depth 3, thorough 4) of verdicts, expiry / un-expiry (also through a lapsed certification) and revocation on one live key, all executed on the real code; '
     'oracle: disqualifying bits always disqualify (upward closed), results partition entries exactly once, truthy iff none bad, expired or wrong => falsy.',
     'Which conditions are disqualifying is taken from the property text (wrong signature, expired, disabled, invalid, no self-signature). Uses real time: fixture keys expired in 2017.',
     'exhaustive enumeration of the verdict lattice and of verification configurations on the real code', 'DESIGN.md 2/C17')
@@ -50,7 +50,7 @@ reg('C01', 'fault_enumeration',
     'Deviation-bounded fault enumeration on real signatures: 0 deviations (every base must verify) then every single mutation of a finite alphabet -- '
     'subject bit flips and edits, type-confusion twins, every other signature type / public-key algorithm / hash id, every bit of the hashed area and its '
     'length, hashed subpacket add / remove / duplicate / reorder / demote to unhashed, signature integer bits, other keys with the issuer rewritten, '
-    'primary<->subkey relabelling, parts swapped between certificates, content flips in signed messages -- over 60 algorithm x hash bases and 21 signature '
+    'primary<->subkey relabelling (also to encryption-only subkeys), parts swapped between certificates, content flips in signed messages, blank characters added to / removed from line ends of cleartext messages -- every rejected signature verified again as a copy; plus every sequence (depth 3, thorough 4) of good and forged verifications on one live key with the same signature objects -- over 60 algorithm x hash bases and 21 signature '
     'kinds x 4 signers (~1.1e5 verifications). Thorough adds reference-signed bases, all 10 signers and mutation pairs (2 deviations). Soundness is a '
     'statement about adversarial inputs, so enumerating the fault alphabet on the real verifier is the fitting level.',
     'Mutations are classified by construction (hashed region / integers / subject / key => different; unhashed data => free); when PGPy accepts a '
@@ -62,7 +62,7 @@ reg('C05', 'model_checking',
     'body alphabets (all flag octets, booleans 0/1/2/255, all 256 revocation-key classes, text in 8 encodings, known/unknown list ids, every free-layout '
     'length of the length set), 2-4 subpackets in every order with duplicates, embedded signatures. For every packet PGPy accepts: hashdata() equals the '
     'RFC 4880 hash input over the received octets, verification is truthy, and every single-bit flip in the header/hashed region of a representative of '
-    'each class (~7e5 flips) is rejected.',
+    'each class (~7e5 flips) is rejected; the same for the primary-key binding embedded in a certificate (7 unusual hashed areas x placement), RSA signatures under algorithm octets 1 / 2 / 3, and every order of reading attestations / verifying / exporting on a key with an attestation.',
     'Trusted: refpgp.sig signer (Ed25519 through OpenSSL). Packets PGPy rejects at import are outside the property and are counted.',
     'exhaustive input enumeration + exhaustive single-bit fault enumeration on the real parser/verifier', 'DESIGN.md 2/C05')
 
@@ -81,8 +81,8 @@ reg('C04', 'fault_enumeration',
     'Deviation-bounded fault enumeration on real integrity-protected messages: 0 faults (base must decrypt to the original) then every single fault of the '
     'alphabet - every bit of the encrypted-data packet and of the session-key packets, truncation at every offset (re-framed and raw), extensions, every '
     'block swap / drop / duplication, block-aligned splices and MDC transplants between two messages under one session key, version / tag changes, integrity-protected data re-framed as legacy tag 9 from every block boundary, every '
-    'arrangement (<= 4) of the top-level packets, 12 wrong passphrases, every non-recipient key with and without rewritten recipient id - over cipher x '
-    'recipient x body bases (~4e4 decryptions). Outcome must be an exception, the original plaintext, or a refusal that hands back no plaintext.',
+    'arrangement (<= 4) of the top-level packets, 12 wrong passphrases, wrong passphrases sharing the first 1016 octets of a 1100-octet one under S2K count 1024, every non-recipient key with and without rewritten recipient id - over cipher x '
+    'recipient x body bases (~4e4 decryptions); plus every sequence (depth 3, thorough 4) of right / wrong secrets on ONE message object, intact and tampered. Outcome must be an exception, the original plaintext, or a refusal that hands back no plaintext.',
     'RSA session-key packets: quick covers every bit of the fixed fields and of the first/last 8 octets of the integer, thorough every bit. Two messages '
     'encrypted under one session key may be exchanged as wholes (inherent to OpenPGP). PGPKey.decrypt on an input without encrypted data returns the input '
     'with a warning (tested API behaviour); that is classed as no-plaintext.',
@@ -92,15 +92,15 @@ reg('C06', 'model_checking',
     'Explicit-state search over protect / unlock-scope / sign / decrypt / export-import / derive-public / copy histories on real key objects, with an '
     'exception injected at every operation boundary inside the unlock scope (crash-point enumeration), a lock-state reference model stepped in lock-step '
     'and the invariant (private fields zero, no secret integer reachable in the object graph or in the export, private operations refuse, export opens with '
-    'the model passphrase under an independent implementation) evaluated after every operation; plus exhaustive protection configurations: 8 key sets x 9 '
+    'the model passphrase under an independent implementation) evaluated after every operation (incl. a wrong passphrase tried inside an open scope); plus exhaustive protection configurations: 10 key sets (incl. non-default ECDH KDF parameters, P-521 points with leading zero octets) x 9 '
     'ciphers x S2K hashes x counts {0, 96, 255} x passphrase kinds, and reference-protected foreign forms (simple/salted/iterated x usage 254/255 x 5 '
-    'ciphers x RSA, DSA, ECDSA, EdDSA, ECDH, ElGamal, GNU dummy, subkey under another passphrase).',
+    'ciphers x RSA, DSA, ECDSA, EdDSA, ECDH, ElGamal, GNU dummy, subkey under another passphrase), each also re-protected under a new passphrase and opened by the reference.',
     'Trusted: refpgp.enc.unprotect_secret (validated at setup on GnuPG-protected fixture keys). States are deduplicated on (passphrase id, protection '
     'parameters, object provenance, public twin derived, observable flags); depth bound 3 (quick) / 4 (thorough).',
     'explicit-state history search with crash-point enumeration on the real objects + exhaustive configuration enumeration vs. independent implementation', 'DESIGN.md 2/C06')
 
 reg('C13', 'model_checking',
-    'All operation sequences up to depth 3 (thorough 4) over a 17-operation menu of passphrase / key / multi-recipient (keys + passphrase, two passphrases) encryptions and key protections '
+    'All operation sequences up to depth 3 (thorough 4) over a 17-operation menu (recipients on Curve25519, P-256, P-384, P-521, RSA) of passphrase / key / multi-recipient (keys + passphrase, two passphrases) encryptions and key protections '
     '(identical arguments repeated), executed on the real code under an owned random source: a recording source (every session key, prefix, salt, IV found in '
     'the output by an independent decryptor must be a value drawn during that very operation, of the right size, never reused across the history, not '
     'constant, session key absent from the output) and two scripted labelled streams (every random field equals the stream value drawn in that operation, so '
@@ -114,7 +114,7 @@ reg('C18', 'model_checking',
     'e=3, short DSA y, EC coordinates and Ed25519 / Curve25519 points with a zero top or last octet) x 12 creation times (0, 1, DST edges, 2^31-1, 2^31, 2^32-1) '
     'x 4 process time zones x producer (reference-encoded import; time set through the API as aware-UTC and aware non-UTC datetime; naive datetime; generated by PGPy) x 8 object '
     'forms (private, public twin, copy, binary / armored re-import, protected, unlocked, locked again); fingerprint and key id must equal SHA-1 over 0x99, '
-    'length and the exported public-key packet, which itself must equal the reference encoding; plus ECDH keys with every non-default KDF parameter pair, fingerprints as printed by GnuPG 2.2.40 for its own keys, and issuer / issuer-fingerprint / recipient ids written by PGPy.',
+    'length and the exported public-key packet, which itself must equal the reference encoding; plus ECDH keys with every non-default KDF parameter pair, keys attached as subkeys of an older / younger primary, P-521 keys generated by PGPy, fingerprints as printed by GnuPG 2.2.40 for its own keys, and issuer / issuer-fingerprint / recipient ids written by PGPy.',
     'The SHA-1 is computed by the reference from PGPy\'s exported packet and, independently, from the raw numbers. Intermediate creation times are covered at 12 boundary values.',
     'exhaustive enumeration of key x time x zone x form on the real code vs. RFC 4880 12.2', 'DESIGN.md 2/C18')
 
@@ -123,7 +123,7 @@ reg('C10', 'model_checking',
     'bytes, bytearray, CRLF, surrounded by other text), checked against an independent radix-64 / CRC-24 / armor-framing decoder (payload, label, <= 76 columns, '
     'headers, CRC); 9 real objects (public / private / large keys, literal / signed / encrypted messages, detached signature, cleartext message) x header sets x '
     'forms; every (loader class, block kind) pair; and for 10 payloads (through ascii_unarmor) and 7 real armored objects (through the class a user loads them with) every single-character substitution of the radix-64 body and CRC line by {next '
-    'alphabet character, =, space, !}: unless payload and CRC still agree PGPy must raise or emit the CRC warning.',
+    'alphabet character, =, space, !}: unless payload and CRC still agree PGPy must raise or emit the CRC warning; every ordered pair of objects with a header set on the first (headers belong to one object).',
     'Trusted: refpgp.armor (bitwise CRC-24, own radix-64). Reading armor headers back is not part of the property and is not demanded.',
     'exhaustive enumeration + exhaustive single-character fault enumeration on the real armor codec', 'DESIGN.md 2/C10')
 
@@ -137,8 +137,8 @@ reg('C11', 'model_checking',
 
 reg('C20', 'model_checking',
     'Product content (9: empty, ASCII, str / bytes UTF-8, all octets, CRLF, NULs, 64 KiB random; thorough 1 MiB) x format {auto, b, t, u} x file name {none, ASCII, '
-    '_CONSOLE, non-ASCII, 255 octets, spaces} x compression (4); 0-3 signers of differing algorithms in every order at equal / increasing / decreasing times x '
-    'compression; sign-then-encrypt and encrypt-then-sign x recipients (and the export of the message decrypt() returns); every export is parsed by an independent RFC 4880 11.3 grammar recogniser (n one-pass '
+    '_CONSOLE, non-ASCII, 255 octets, spaces} x compression (4); 0-3 signers of differing algorithms (incl. an RSA key under the sign-only algorithm id) in every order at equal / increasing / decreasing times x '
+    'compression, exported once at the end or after every signature; contents also from a buffer the caller goes on using; sign-then-encrypt and encrypt-then-sign x recipients (and the export of the message decrypt() returns); every export is parsed by an independent RFC 4880 11.3 grammar recogniser (n one-pass '
     'packets, literal, n signatures, i-th one-pass packet describing the (n-1-i)-th signature, only the last flagged final, compression around the whole signed '
     'sequence, session-key packets then one container) and re-imported from binary and armor (content, name, time, format, compression, signature multiset); '
     'reference-made and GnuPG-made messages in old-format / partial-length framing and foreign compression are imported, verified and re-exported; returned content must equal the content put in.',
@@ -170,7 +170,7 @@ reg('C14', 'model_checking',
     'Transferable keys written by an independent encoder over the shape product (1-3 user ids x image attribute x 0-2 subkeys of differing algorithms x 1-2 '
     'self-signatures x third-party certification {none, exportable absent / true / false} x identity revocation x {direct-key signature, designated revoker, key / '
     'subkey revocation} x equal creation times x interleaved trust packets x public / secret; quick takes every second element of the inner product, thorough all), '
-    'concatenations of 2-3 of 5 keys (one of which certified two of the others) in every order, GnuPG-made keys, and every state of the key-history search: after import -> export (binary, then armored) fingerprint, key material, '
+    'keys with a component PGPy has no parser for (v5 subkey, private tag) and its signatures, photos of 9 kB in both subpacket length forms, non-UTF-8 identities, coordinates with leading zero octets, non-default ECDH KDF parameters, concatenations of 2-3 of 5 keys (one of which certified two of the others) in every order, GnuPG-made keys, and every state of the key-history search: after import -> export (binary, then armored) fingerprint, key material, '
     'identities and the per-component multiset of exportable signatures are unchanged, every signature still verifies (reference and PGPy), non-exportable '
     'certifications and only those are dropped, and a copy exports identical octets.',
     'Signatures are compared by (type, algorithms, hashed area, integers), not by framing. Reference-made keys are first checked by the reference itself.',
@@ -180,7 +180,7 @@ reg('C16', 'model_checking',
     'Reference-written RSA keys for the full product primary flag set (8) x 0..2 subkeys with flag sets {absent, C, S, E, Es, A, S+E, all, none} (728 '
     'configurations; thorough: three subkeys), every (old flags, new flags) pair of a newer binding / self-certification on primary, first and second subkey, and every ordered pair of '
     'flag sets on two identities selected with user=; on each: sign, certify, encrypt on the public and the private form (representative slice: all four forms '
-    'public / private / locked / unlocked x enforcement on / off), and one reference-encrypted message per component for decrypt, alone and behind the session-key packets of other components. Oracle: refuses iff no '
+    'public / private / locked / unlocked x enforcement on / off), every sequence (depth 3, thorough 4) of uses and newer self-signatures on one live key (Ed25519 + signing + encryption subkey), a locked primary with unprotected subkeys, an identity-less RSA key, and one reference-encrypted message per component for decrypt, alone and behind the session-key packets of other components. Oracle: refuses iff no '
     'component is granted the capability by its most recent self-signature (enforcement off lifts only the refusal, not the delegation); otherwise the component named in the signature / session-key packet is granted it '
     'and really did the work (independent verifier under exactly that key, independent decryptor with exactly that secret).',
     'Components without a key-flags subpacket are don\'t-cares (RFC 4880: unrestricted; PGPy: grants nothing); the primary may always certify. All components are RSA '
@@ -189,9 +189,9 @@ reg('C16', 'model_checking',
 
 reg('C19', 'model_checking',
     'Breadth-first explicit-state search over load / unload histories on the real PGPKeyring with a universe of 8 key objects (two keys sharing name, comment and '
-    'e-mail, one sharing only the e-mail, the public and private half of one key, both halves of a key with two subkeys, a second object of one key), unload by selector and by held object: the clusters of keys that share identifiers are each '
+    'e-mail, one sharing only the e-mail, the public and private half of one key, both halves of a key with two subkeys, a second object of one key), unload by selector and by held object, blobs holding both halves of one key: the clusters of keys that share identifiers are each '
     'explored to closure of the canonical state (model multiset + alias layout), the whole universe and blob loads (binary, armor, file, list) to a depth bound; in '
-    'every state: fingerprints() under all 9 filter combinations, len, every fingerprint (with and without spaces), key id, short id, name, comment, e-mail of a '
+    'every state: fingerprints() under all 9 filter combinations, len, every fingerprint (plain, spaced, GnuPG display form), key id, short id, name, comment, e-mail of a '
     'loaded key is in the keyring and selects a loaded key carrying it, identifiers of unloaded-only keys select nothing, selection by signature and by message.',
     'Selection among several loaded keys carrying the same identifier is checked as a refinement. The internal alias layout is used only to distinguish states.',
     'explicit-state BFS to closure on the real keyring with a multiset reference model', 'DESIGN.md 2/C19')
@@ -203,7 +203,7 @@ reg('C08', 'model_checking',
     'marker, trust) x 4 trailers: Packet() consumes exactly the packet, leaves the trailer, re-serialises identically. Foreign input: the same bodies re-framed by '
     'the reference in new 1/2/5-octet, partial (1-3 chunks) and old 1/2/4-octet / indeterminate form, unknown tags 15, 16, 20-63, unknown versions, every '
     'subpacket type hashed and unhashed, lossy-looking unhashed values (non-ASCII text, booleans 2/255, unknown flag bits, non-minimal lengths): re-serialised '
-    'header length equals body length, accepted again, same field values (generic attribute walk), fixed point. Plus in-place mutation of parsed objects.',
+    'header length equals body length, accepted again, same field values (generic attribute walk), fixed point. algorithm octets without a field parser in known packets, attribute subpackets in every length form. Plus in-place mutation of parsed objects.',
     'Trusted: refpgp.wire framing. Packets PGPy rejects are outside the foreign half and are counted.',
     'exhaustive packet enumeration through the real parser / serialiser vs. reference framing', 'DESIGN.md 2/C08')
 
